@@ -209,7 +209,11 @@ func c09ServerScenario(name string, frames []c2sFrame, negotiate bool, opt Optio
 			n.Peer = DefaultPeer()
 			tunnelpb.RegisterTunnelServiceServer(n, h.Service())
 			w.Scripts["*"] = &HandlerScript{ID: "any", Tag: 9, Ops: []HOp{{K: "recvall"}, {K: "return", Size: 3}}}
-			var rc *RawClient
+			rc, err := w.OpenRawClient(n, negotiate)
+			if err != nil {
+				return
+			}
+			w.Vals["rc"] = rc
 			peer := w.GoPeer("rawclient", func() {
 				for _, f := range frames {
 					if rc.Send(f.mk()) != nil {
@@ -218,12 +222,6 @@ func c09ServerScenario(name string, frames []c2sFrame, negotiate bool, opt Optio
 				}
 				rc.Finish()
 			})
-			var err error
-			rc, err = w.OpenRawClient(n, negotiate)
-			if err != nil {
-				return
-			}
-			w.Vals["rc"] = rc
 			w.Join(peer)
 			w.Drain()
 		},
